@@ -186,7 +186,8 @@ Definition d_resetseq (args : list val) (obs : val) : verdict :=
   end.
 
 (* ObjectSetters: a script of SetX / SetY / SetZ / SetZoom / ResetExtendedSpatialID applied to one fresh object;
-   a command is VL [VS "X"; x] | [VS "Y"; y] | [VS "Z"; z] | [VS "Zoom"; h; v] | [VS "Reset"; s];
+   a command is VL [VS "X"; x] | [VS "Y"; y] | [VS "Z"; z] | [VS "Zoom"; h; v] | [VS "Reset"; s] | [VS "New"; s] (continue on the object
+   returned by NewExtendedSpatialID(s): a fresh one per call);
    observed per step [error?; ID(); FieldParams(); [HZoom(); X(); Y(); VZoom(); Z()]] *)
 Definition dec_setter (v : val) : option setter :=
   match v with
@@ -195,6 +196,7 @@ Definition dec_setter (v : val) : option setter :=
   | VL [VS "Z"; VZ z] => Some (SZ z)
   | VL [VS "Zoom"; VZ h; VZ v] => Some (SZoom h v)
   | VL [VS "Reset"; VS s] => Some (SReset s)
+  | VL [VS "New"; VS s] => Some (SNew s)
   | _ => None
   end.
 Definition obs_setter_step (v : val) : option (bool * string * list Z * list Z) :=
@@ -220,11 +222,51 @@ Definition d_setters (args : list val) (obs : val) : verdict :=
   | _ => bad_case
   end.
 
+(* ObjectAliasing: NewExtendedSpatialID(s) twice (objects A, B), a setter script on A, a third parse (C); observed the read-backs
+   [ID(); FieldParams(); five getters] of A, B, C, or an error when s is malformed. B and C must be the parsed record. *)
+Definition obs_readback (v : val) : option readback :=
+  match v with
+  | VL [VS id; fp; acc] => match as_LZ fp, as_LZ acc with Some a, Some b => Some (id, a, b) | _, _ => None end
+  | _ => None
+  end.
+Definition readback_eqb (x y : readback) : bool :=
+  let '(id, fp, acc) := x in let '(id', fp', acc') := y in String.eqb id id' && list_eqb Z.eqb fp fp' && list_eqb Z.eqb acc acc'.
+Definition val_readback (r : readback) : val := let '(id, fp, acc) := r in VL [VS id; of_LZ fp; of_LZ acc].
+Definition d_alias (args : list val) (obs : val) : verdict :=
+  match args with
+  | [VS s; VL cmds] =>
+      match all_opt (map dec_setter cmds) with
+      | Some l =>
+          let o := match obs with
+                   | VE _ => Some None
+                   | VL [a; b; c] => match obs_readback a, obs_readback b, obs_readback c with
+                                     | Some ra, Some rb, Some rc => Some (Some (ra, rb, rc))
+                                     | _, _, _ => None
+                                     end
+                   | _ => None
+                   end in
+          match o with
+          | Some o' =>
+              let m := alias_model s l in
+              let c := match m, o' with
+                       | Some (a, b, c0), Some (ra, rb, rc) => readback_eqb (rb_of a) ra && readback_eqb (rb_of b) rb && readback_eqb (rb_of c0) rc
+                       | None, None => true
+                       | _, _ => false
+                       end in
+              mkv c (check_alias s l o') "-"
+                  (match m with Some (a, b, c0) => VL [val_readback (rb_of a); val_readback (rb_of b); val_readback (rb_of c0)] | None => VE VNil end)
+          | None => bad_case
+          end
+      | None => bad_case
+      end
+  | _ => bad_case
+  end.
+
 Definition base_C10 : table :=
   [("ConvertSpatialIdsToExtendedSpatialIds", fun _ => d_s2e); ("ConvertExtendedSpatialIdsToSpatialIds", fun _ => d_e2s);
    ("NotationRoundTrip", fun _ => d_roundtrip); ("ParsePrint", fun _ => d_parseprint);
    ("ConvertExtendedSpatialIDToSpatialIDs", fun _ => d_expand); ("GetVoxelIDfromSpatialID", fun _ => d_voxel);
-   ("ResetSequence", fun _ => d_resetseq); ("ObjectSetters", fun _ => d_setters)].
+   ("ResetSequence", fun _ => d_resetseq); ("ObjectSetters", fun _ => d_setters); ("ObjectAliasing", fun _ => d_alias)].
 
 (* ---- sequences of calls made one after the other inside one harness call (the API is stateless: every call must satisfy its own
         statement whatever was called before). A call is VL (VS function :: arguments); observed: the list of the observed outputs. ---- *)
